@@ -61,6 +61,11 @@ def judge_attempt(a, item, pb):
     else:
         if len(reqs) != 1:
             pb.append(('transmissions', '%s: GET sent %d times' % (tag, len(reqs))))
+    # an attempt whose request was finally refused goes no further: nothing else is asked of the CA before the next attempt
+    if not want_ok and reqs and reqs[-1].get('fault'):
+        later = [r for r in a['reqs'] if r.get('t_recv', 0) > reqs[-1].get('t_recv', 0)]
+        if later:
+            pb.append(('went-on-after-refusal', '%s: after the last refusal the attempt went on with %d more request(s): %s' % (tag, len(later), [r.get('kind') for r in later][:6])))
     po = a['postop']
     if po is not None:
         ok = po['kv'].get('is_success') == 'true'
